@@ -14,7 +14,7 @@ import (
 
 func init() {
 	register("C19", propMeta{
-		Explanation:  "Decides codec agreement and value placement, not equality with a model: (R1) the node codec is symmetric and complete: the private structs in Node.MarshalJSON and Node.UnmarshalJSON declare the same fields, types and JSON tags, these cover every exported field of Node, every decoded field is copied back into the node, Item's JSON tags are unique and its only untagged field is the unexported fetch marker; (R2) decode failures on the read path are returned (shared with C10.R5); (R3) value placement follows the store options: commitTrackedItemsValues is a no-op exactly when values live in the node segment or are actively persisted; manage detaches an item's value (Value = nil, ValueNeedsFetch = true) only after that value was marshalled successfully into the blob it returns; (R4) the in-memory value of the current item is dropped (unfetchCurrentValue) only when it is known to be a copy fetched from the value store - the valueWasFetched marker, set only by the fetching read paths - because an added-then-updated value may exist inline only; (R5) a value read falls back to the blob store when the value cache misses or fails, returns the blob store's error, and assigns item.Value only after a successful decode. (R6) ValueNeedsFetch is cleared only behind a `Value != nil` test of the same item, after an assignment of its Value, or while removing the item. (R7) the rollback list of tracked value blobs takes an item's current id before the id is reset to the tracked one.",
+		Explanation:  "Decides codec agreement and value placement, not equality with a model: (R1) the node codec is symmetric and complete: the private structs in Node.MarshalJSON and Node.UnmarshalJSON declare the same fields, types and JSON tags, these cover every exported field of Node, every decoded field is copied back into the node, Item's JSON tags are unique and its only untagged field is the unexported fetch marker; (R2) decode failures on the read path are returned (shared with C10.R5); (R3) value placement follows the store options: commitTrackedItemsValues is a no-op exactly when values live in the node segment or are actively persisted; manage detaches an item's value (Value = nil, ValueNeedsFetch = true) only after that value was marshalled successfully into the blob it returns; (R4) the in-memory value of the current item is dropped (unfetchCurrentValue) only when it is known to be a copy fetched from the value store - the valueWasFetched marker, set only by the fetching read paths - because an added-then-updated value may exist inline only; (R5) a value read falls back to the blob store when the value cache misses or fails, returns the blob store's error, and assigns item.Value only after a successful decode. (R6) ValueNeedsFetch is cleared only behind a `Value != nil` test of the same item, after an assignment of its Value, or while removing the item. (R7) the rollback list of tracked value blobs takes an item's current id before the id is reset to the tracked one. (R8) in itemActionTracker.Add and Update (closures included) the error of every BlobStore.Add is tested and every return reached on its failure edge returns that very error variable, so a value blob that could not be written is never committed as if it had been.",
 		DoesNotCover: "Equality of contents with an in-memory model over operation sequences, restart behaviour and slot-length dependent restructuring are not decided.",
 	}, runC19)
 }
@@ -361,6 +361,58 @@ func runC19(c *Ctx) {
 	}
 	r7 := c.Rule("R7", "what a rollback deletes is what this transaction wrote: getForRollbackTrackedItemsValues puts an item's CURRENT id (the temporary one an update swapped in) on the list before it resets the id to the tracked (committed) one - the other order names the committed blob", 2)
 	rollbackListOrderRule(c, r7)
+
+	r8 := c.Rule("R8", "an actively persisted value that could not be written is reported: in itemActionTracker.Add / Update (closures included) the error of every BlobStore.Add is tested and every return reached on its failure edge returns THAT error (not another variable of the same name)", 2)
+	{
+		n := 0
+		var fns []*Func
+		for _, k := range []string{"common.itemActionTracker.Add", "common.itemActionTracker.Update"} {
+			f := w.Fn(k)
+			fns = append(fns, f)
+			var addLits func(x *Func)
+			addLits = func(x *Func) {
+				for _, l := range x.lits {
+					fns = append(fns, l)
+					addLits(l)
+				}
+			}
+			addLits(f)
+		}
+		for _, f := range fns {
+			g := w.G(f)
+			info := f.Pkg.TypesInfo
+			for _, nc := range g.callNodes("sop.BlobStore.Add") {
+				n++
+				c.Analysed(rootOf(f))
+				construct := fmt.Sprintf("%s: the error of BlobStore.Add #%d reaches the caller", shortKey(rootOf(f).Key), ordinalOf(w, rootOf(f), nc.cs))
+				fail, _, ok := g.ErrBranches(nc.n, nc.cs)
+				if !ok {
+					c.Violated(r8, construct, nc.cs.Call.Pos(), "the error of the value write is not bound to a variable that is tested: a failed write of the value blob goes unnoticed", nil)
+					continue
+				}
+				ev := g.errVarOfCall(nc.n, nc.cs)
+				r := g.Reach(fail, isReturn, nil)
+				var bad *GNode
+				for _, x := range g.Nodes {
+					if !r.Seen[x.ID] || x.Ret == nil {
+						continue
+					}
+					op := g.ErrOperand(x)
+					if op == nil || !mentionsObj(info, op, ev) {
+						bad = x
+						break
+					}
+				}
+				pos := nc.cs.Call.Pos()
+				if bad != nil {
+					pos = bad.Ret.Pos()
+				}
+				c.Check(bad == nil, r8, construct, pos, "every return on the failure edge returns the call's error",
+					"a failed BlobStore.Add can end in a return that does not carry its error (a shadowed or different variable): Update reports success, the node slot is stored with the new value id and ValueNeedsFetch set, and the transaction commits an item whose value blob does not exist - later reads fail and the previous value is gone from the node as well", nil)
+			}
+		}
+		c.Check(n >= 2, r8, "BlobStore.Add sites of the item action tracker inventoried", token.NoPos, fmt.Sprintf("%d sites", n), fmt.Sprintf("only %d sites (Add and Update's activelyPersist known)", n), nil)
+	}
 	r5 := c.Rule("R5", "value reads fall back from the cache to the blob store and assign the value only after decoding", 3)
 	{
 		f := w.Fn("common.itemActionTracker.Get")
